@@ -227,7 +227,7 @@ def run(ctx: core.Check):
                     special += any(b in b"\t\n\x0b\x0c\r \x00" for b in tail)
                     pf.unlink()
     ctx.cov["der_pairs_with_a_file_ending_in_whitespace_or_nul"] = special
-    budget = 20000 if ctx.quick else 300000
+    budget = 20000 if ctx.quick else 120000
     if ctx.quick:
         ctx.rng.shuffle(conv_s)
         # keep every (type, zx, zy) shape with zx + zy <= 2 and sample the layout options
